@@ -187,11 +187,11 @@ ShiftOnce(p, i, target) ==
 ShiftPhase(p, i, h) ==
     LET t == PhaseAt(h) IN ShiftOnce(ShiftOnce(ShiftOnce(ShiftOnce(p, i, t), i, t), i, t), i, t)
 
-(* block 0 carries the BatchConfig event of the new keyper set and the EonStarted event:
-   smstate.handleBatchConfig queues a (redundant) check-in, smstate.handleEonStarted creates the
-   puredkg object and shifts it to the phase of block 0 *)
-HandleBatchConfig(p, i) == Push(p, Msg("checkin", i, [BlankVals EXCEPT ![i] = "key"]))
-EonStarted(i) == ShiftPhase(HandleBatchConfig(NewPure, i), i, 0)
+(* block 0 carries the EonStarted event (the eon of a keyper set that was registered EARLIER: a
+   previous eon of the same keyper set failed and shuttermint restarted it, so the BatchConfig
+   event and its redundant check-in are history): smstate.handleEonStarted creates the puredkg
+   object and shifts it to the phase of block 0 *)
+EonStarted(i) == ShiftPhase(NewPure, i, 0)
 
 (* smstate.handlePolyCommitment -> puredkg.HandlePolyCommitmentMsg *)
 HandleCommit(p, i, m) ==
@@ -239,13 +239,16 @@ InitState ==
     [h     |-> 1,
      stage |-> 0,
      rej   |-> 0,
+     rl    |-> [i \in K |-> 0],    \* ghost: block in which keyper i re-created its in-memory state (0 = never)
      kp    |-> [i \in K |-> IF i \in Honest THEN EonStarted(i) ELSE NoKeyper],
      app   |-> AppInit,
      blk   |-> <<>>]
 
 (* op: [op, s, vals].  "bcommit" "beval" "bacc" "bapol": a Byzantine keyper sends that message;
    "post": honest keyper s sends the head of its outbox (fx.SendShutterMessages, one message);
-   "end": the block is closed and every honest keyper processes it. *)
+   "reload": honest keyper s discards its ShuttermintState (process restart, or Invalidate after a
+   database error) and will load it from its database: everything is in the database, so this
+   changes nothing; "end": the block is closed and every honest keyper processes it. *)
 Op(o, s, vals) == [op |-> o, s |-> s, vals |-> vals]
 KindOf(o) == CASE o.op = "bcommit" -> "commit" [] o.op = "beval" -> "eval"
                [] o.op = "bacc" -> "acc" [] o.op = "bapol" -> "apol" [] OTHER -> Blank
@@ -258,7 +261,8 @@ Rank(o) ==
       [] o.op = "bacc"    -> 4 * (o.s - 1) + 3
       [] o.op = "bapol"   -> 4 * (o.s - 1) + 4
       [] o.op = "post"    -> 4 * N + o.s
-      [] o.op = "end"     -> 5 * N + 1
+      [] o.op = "reload"  -> 5 * N + o.s
+      [] o.op = "end"     -> 6 * N + 1
 
 Final(s) == s.h > LastBlock
 
@@ -289,8 +293,11 @@ InWindow(s, o) ==
       [] o.op = "end"  -> \A i \in Honest : IF Len(s.kp[i].outbox) = 0 THEN TRUE ELSE s.h < WindowEnd(Head(s.kp[i].outbox).k)
       [] OTHER -> TRUE
 
-OpEnabled(s, o, maxRej, windows) ==
+Reloads(s) == Cardinality({i \in K : s.rl[i] # 0})
+
+OpEnabled(s, o, maxRej, windows, maxReload) ==
     /\ ~Final(s)
+    /\ o.op = "reload" => (o.s \in Honest /\ ~s.kp[o.s].done /\ s.rl[o.s] = 0 /\ Reloads(s) < maxReload)
     /\ IF o.op = "post" THEN o.s \in Honest /\ s.kp[o.s].outbox # <<>> /\ Rank(o) >= s.stage
        ELSE Rank(o) > s.stage
     /\ o.op \in {"bcommit", "beval", "bacc", "bapol"} => o.s \in Byz
@@ -306,6 +313,9 @@ ApplyOp(s, o) ==
         LET process == s.h < LastBlock IN     \* the run stops after the block that carries the votes
         [st  |-> [s EXCEPT !.h = @ + 1, !.stage = 0, !.blk = <<>>,
                            !.kp = [i \in K |-> IF process THEN ProcessBlock(s.kp[i], i, s.h, s.blk) ELSE s.kp[i]]],
+         out |-> [code |-> CodeNone, msg |-> NoMsg, ev |-> NoMsg]]
+    ELSE IF o.op = "reload" THEN
+        [st  |-> [s EXCEPT !.rl[o.s] = s.h, !.stage = Rank(o)],
          out |-> [code |-> CodeNone, msg |-> NoMsg, ev |-> NoMsg]]
     ELSE
         LET m == MsgOf(s, o)
